@@ -83,7 +83,7 @@ def criterion(variant, yy, nodata, prm):
     return sel["scores"], 10.0 ** np.asarray(g, dtype=float), bool(deg)
 
 
-def lambda_excused(R, variant, robust, yy, nodata, prm, l1, l2):
+def lambda_excused(R, variant, robust, yy, nodata, prm, l1, l2, other=None):
     """Different lambdas on related inputs: tolerated only for a criterion tie / noise-level criterion."""
     if robust:
         # noise-level criterion is visible in the tapped best score of the interpreted run
@@ -105,6 +105,16 @@ def lambda_excused(R, variant, robust, yy, nodata, prm, l1, l2):
     if deg:
         R.count("lambda_diff_degenerate")
         return True
+    if other is not None:
+        # the criterion is shift-/reversal-invariant in exact arithmetic; if our own replica of it (built on the repository's
+        # float64 solver, not on the kernel under test) already changes between the two inputs, the solves are
+        # ill-conditioned (C01 known finding: few valid cells far from long gaps, large lambda) and the pair is outside the claim
+        vals2, _, deg2 = criterion(variant, other[0], other[1], prm)
+        ka = int(np.argmin(np.abs(lams - l1)))
+        kb = int(np.argmin(np.abs(lams - l2)))
+        if deg2 or any((not np.isfinite(vals[k]) or not np.isfinite(vals2[k]) or abs(vals[k] - vals2[k]) > 1e-6 * max(abs(vals[k]), abs(vals2[k]))) for k in (ka, kb)):
+            R.count("excluded_ill_conditioned")
+            return True
     k1 = int(np.argmin(np.abs(lams - l1)))
     k2 = int(np.argmin(np.abs(lams - l2)))
     if np.isfinite(vals[k1]) and np.isfinite(vals[k2]) and S.rel_tied(float(vals[k1]), float(vals[k2]), 1e-9):
@@ -122,7 +132,7 @@ def compare(R, relation, cfg, variant, robust, prm, A, B, case, shift=0):
     if lA is not None and lA != lB:
         if abs(lA - lB) <= 1e-12 * max(lA, lB):
             pass
-        elif lambda_excused(R, variant, robust, yA, ndA, prm, lA, lB):
+        elif lambda_excused(R, variant, robust, yA, ndA, prm, lA, lB, other=(yB, ndB)):
             return
         else:
             R.violation(f"C06:{relation}-lambda", f"{cfg}: lambda changes under {relation}: {lA:.6g} vs {lB:.6g} (criterion not tied)", case)
@@ -230,7 +240,7 @@ def compare_rev(R, cfg, variant, prm, A, B, case):
     _, _, bB, lB = B
     R.count("pairs_reversal")
     if lA is not None and lA != lB and abs(lA - lB) > 1e-12 * max(lA, lB):
-        if lambda_excused(R, variant, False, yA, ndA, prm, lA, lB):
+        if lambda_excused(R, variant, False, yA, ndA, prm, lA, lB, other=(yA[::-1].copy(), ndA)):
             return
         R.violation("C06:reversal-lambda", f"{cfg}: lambda changes under time reversal: {lA:.6g} vs {lB:.6g} (criterion not tied)", case)
         return
